@@ -12,7 +12,8 @@ Record case := {
   c_events : list out;             (* Dropped / Buffered outcomes observed on node A, in op order *)
   c_posts : list out;              (* every batch request received by the fake Honeycomb API or by B's peer router *)
   c_peer_collected : list N;       (* span ids that reached B's collector *)
-  c_fields_bad : list N            (* delivered span ids whose client fields differ from what the client sent *)
+  c_fields_bad : list N;           (* delivered span ids whose client fields differ from what the client sent *)
+  c_probe_handled : list N         (* ids of probes arriving at A's peer router that A did NOT discard (its router counted them as spans) *)
 }.
 
 Definition max_u64 : N := 18446744073709551615%N.
@@ -69,7 +70,8 @@ Section WithCase.
     list_eqb out_eqb (events m_outs) (c_events c) &&
     list_eqb out_eqb (sort_posts (map canon_post (posts_of m_outs))) (sort_posts (map canon_post (c_posts c))) &&
     list_eqb N.eqb (nsort (map p_sid (filter (fun p => negb (p_probe p)) (pays_to 1 (posts_of m_outs)))))
-                   (nsort (c_peer_collected c)).
+                   (nsort (c_peer_collected c)) &&
+    match c_probe_handled c with [] => true | _ => false end.
 
   (* ---------- the property monitor: the implementation's observations against the specification ---------- *)
   Definition x_up : list pay := spec_up m_own m_keep false [] [] (c_ops c).
@@ -106,7 +108,8 @@ Section WithCase.
   Definition upstream_to_hny : bool :=
     forallb (fun o => match o with Post true h _ _ _ => N.eqb h 0 | _ => true end) (c_posts c).
   Definition probes_discarded : bool :=
-    forallb (fun s => mem_N s (map p_sid (filter (fun p => negb (p_probe p)) x_pr))) (c_peer_collected c).
+    forallb (fun s => mem_N s (map p_sid (filter (fun p => negb (p_probe p)) x_pr))) (c_peer_collected c) &&
+    match c_probe_handled c with [] => true | _ => false end.
 
   Definition monitor : codes :=
     decisions false [] [] (c_ops c) ++
